@@ -67,6 +67,7 @@ extern "C" {
 }
 
 thread_local! {
+    pub static LAST_MODEL_PROBLEM: std::cell::RefCell<Option<String>> = const { std::cell::RefCell::new(None) };
     static Z3_ERR: std::cell::Cell<i32> = const { std::cell::Cell::new(0) };
 }
 
@@ -251,6 +252,10 @@ impl Z3 {
                 }
                 let mut i: i64 = 0;
                 if !Z3_get_numeral_int64(self.ctx, v, &mut i) {
+                    // not an int64 numeral (z3 is free to pick huge values for unconstrained
+                    // constants); remember what it was
+                    let txt = std::ffi::CStr::from_ptr(Z3_ast_to_string(self.ctx, v)).to_string_lossy().into_owned();
+                    LAST_MODEL_PROBLEM.with(|p| *p.borrow_mut() = Some(format!("value of {} is {}", std::ffi::CStr::from_ptr(Z3_ast_to_string(self.ctx, t.0)).to_string_lossy(), txt)));
                     ok = false;
                     break;
                 }
